@@ -92,6 +92,9 @@ CLAIMED = {
  "C44": ("guard-dominance check on every value decoded from the wire in pkg/lsp (WIRE-GUARD), goroutine reachability / who-may rule on the documents map (HANDLER-SYNC), def-use agreement of the text used for parsing, completing, storing and converting positions (TEXT-AGREE), def-use and loop-path check of the published diagnostics (DIAG-SOURCE)",
          "Structural necessary conditions: decoded pointers, slices, strings, interfaces and numbers are dereferenced, indexed, asserted or used as an index only under a dominating check (the server has no recover); the documents map is touched only by the synchronous handlers; one request uses one text for parsing, completion, storage and every position conversion, and the tree searched belongs to that text; diagnostics are exactly the converted ranges of the unpacked parse errors of that text, one per entry, published under the document's URI. The UTF-16/CRLF arithmetic of walkString and its round trip, and the content of hover/completion answers, are not decided.",
          "trusts go/ssa, json.Unmarshal's zero-value behaviour for absent members and jsonrpc2's one-request-at-a-time handler calls"),
+ "C29": ("who-may-write and def-use check on the frozen bound of the shared history and guard-dominance check on every database read (FROZEN-UPPER); def-use check of the session entry's sequence number (SESSION-ADD)",
+         "Structural necessary condition of the 'session's view' clause: the bound of the shared history is read from the database once per store, is never rewritten, and bounds every database read of the store and its cursor (commands stored by other sessions after the session started cannot enter the walk); session commands are recorded under the number the shared store returned. Matching, order, de-duplication and the cursor hand-off are not decided.",
+         "trusts go/ssa; the bound field is discovered from the flow of DB.NextCmdSeq's result, not from names"),
 }
 
 NOT_APPLICABLE = {
@@ -103,7 +106,6 @@ NOT_APPLICABLE = {
  "C15": "agreement of the core language with a reference interpreter is whole-language semantics",
  "C23": "wildcard match semantics over directory trees are value-level (a known matcher defect, *b*[set:x]c vs bxbxc, is invisible to any structural rule)",
  "C28": "cursor validity and exact kill ranges depend on string contents and rune boundaries",
- "C29": "history navigation is state-machine behaviour over histories",
  "C34": "width fitting is column arithmetic over rune widths",
  "C35": "Markdown rendering vs CommonMark is translation correctness over all documents; termination is not statically decided here",
  "C36": "Markdown formatter idempotence/meaning preservation is translation correctness over all documents",
